@@ -301,7 +301,8 @@ def _load():
     tt["slot"] = 0.9     # slot is tried only where sched was not drawn
     tt_blk = dict(tt, qcap=0.8, qcap_vals=[INF, 0, 1, 2], n=[2, 2, 3], sched_pre_opts=[False], slot=0.0)   # overtime servers holding blocked customers
     tt_slotblk = dict(tt, sched=0.0, slot=1.0, qcap=0.8, qcap_vals=[INF, 0, 1, 2], n=[2, 2, 3])   # slotted nodes whose customers get blocked downstream
-    register(Profile("C12", [C12], [(4, tt), (1, tt_blk), (1, tt_slotblk)],
+    tt_exact = dict(tt, exact=0.7)      # ExactNode's own shift-change / slot code
+    register(Profile("C12", [C12], [(4, tt), (1, tt_blk), (1, tt_slotblk), (1, tt_exact)],
                      "distinct history digest; non-trivial = >=1 shift end with a service in flight or >=1 slot with more customers waiting than its size",
                      B(30000, 300000)))
     pat = profile(renege=0.8, jockey=0.5, baulk=0.6, prio=0.5, preempt=0.3, sched=0.25, qcap=0.4, syscap=0.2, n=[1, 2, 2, 3], ps=0.03, slot=0.05,
@@ -343,7 +344,7 @@ def _load():
                  sched=0.35, sched_pre_opts=[False, False, "resume", "restart", "resample"], renege=0.35, prio=0.4, qcap=0.3, tdep=0.0,
                  batch=0.2, horizon=[8.0, 20.0], ccm=0.1, cct=0.0, plan={"time": 0.75, "cust": 0.25}, int_samples=0.4)
     exc = dict(ex, time={"cont": 1.0}, f_zero=0.0, policies=["uniform"], _cont=True)
-    ex_pre = dict(ex, prio=0.7, preempt=0.4, preempt_opts=["resume", "restart", "resample"], cct=0.15)     # remaining service times in Decimal
+    ex_pre = dict(ex, k=[2, 2, 3], prio=1.0, preempt=0.8, preempt_opts=["resume", "restart", "resample"], cct=0.5)     # remaining service times in Decimal
     ex_slot = dict(ex, ordinary_only=False, ps=0.0, slot=0.4, sched=0.2)                                   # slot dates in Decimal
     register(Profile("C20", [C20], [(3, ex), (1, exc), (1, ex_pre), (1, ex_slot)],
                      "exact=k runs (k in 10..30) on decimal-lattice tapes: every record field a Decimal, dates = exact rational sums of samples / "
